@@ -146,7 +146,7 @@ def class_source(prog, ci, S, direct=False):
 
 
 HEADER = ("from utype import Schema, DataClass, Field, Options, Rule\nimport utype\n"
-          "from typing import List, Dict, Optional, Union, Iterator, Generator, Literal, Tuple, Final, ClassVar\nfrom utype.utils.compat import Self\nfrom utype.types import Array, Object, PositiveInt as PosInt\nimport sys as _sys\nMOD = _sys.modules[__name__]\n")
+          "from typing import List, Dict, Optional, Union, Iterator, Generator, Literal, Tuple, Final, ClassVar\nfrom utype.utils.compat import Self\nfrom utype.types import Array, Object, PositiveInt as PosInt\nfrom props.c17_deco import logged as _logged\nimport sys as _sys\nMOD = _sys.modules[__name__]\n")
 
 
 def alias_source(S):
@@ -155,9 +155,11 @@ def alias_source(S):
 
 def func_source(prog, S, direct=False):
     a, b = prog["func"]["arg"], prog["func"]["ret"]
+    # (under a functools.wraps decorator of another module: the names are still those of this module)
+    deco = "@utype.parse\n@_logged\n" if prog["func"].get("wrapped") else "@utype.parse\n"
     if direct:
-        return (f"@utype.parse\ndef fn{S}(a: C{a}{S}, n: int = 0) -> C{b}{S}:\n    return {{'v': a.v + n}}\n")
-    return (f"@utype.parse\ndef fn{S}(a: 'C{a}{S}', n: int = 0) -> 'C{b}{S}':\n    return {{'v': a.v + n}}\n")
+        return (f"{deco}def fn{S}(a: C{a}{S}, n: int = 0) -> C{b}{S}:\n    return {{'v': a.v + n}}\n")
+    return (f"{deco}def fn{S}(a: 'C{a}{S}', n: int = 0) -> 'C{b}{S}':\n    return {{'v': a.v + n}}\n")
 
 
 def func2_source(prog, S, direct=False):
@@ -542,6 +544,8 @@ def generate(rng, tier):
                 used_c.add(r_["cont"])
         classes.append({"refs": refs, "base": rng.choice(["schema", "schema", "dataclass"]), "lim": rng.random() < 0.15})
     prog = {"classes": classes, "future": future, "func": {"arg": rng.randrange(n), "ret": rng.randrange(n)}}
+    if rng.random() < 0.3:
+        prog["func"]["wrapped"] = True
     no_req = [ci for ci in range(n) if not any(r["cont"] == "req" for r in classes[ci]["refs"])]
     if rng.random() < 0.4:
         prog["func2"] = {"p0": rng.randrange(n), "p1": rng.randrange(n)}
